@@ -1,10 +1,14 @@
 #!/bin/sh
-# tools/runall.sh [quick|thorough] [seed]  — run every registered check sequentially; summary at the end
-tier="${1:-quick}"; seed="${2:-0}"
-cd /verif
-for p in C01 C02 C03 C04 C05 C06 C07 C08 C09 C10 C11 C12 C13 C14 C15 C16 C17 C18 C19 C20; do
+# tools/runall.sh [quick|thorough] [seed] [props...] — run every registered check sequentially; summary at the end
+here="$(cd "$(dirname "$0")/.." && pwd)"
+tier="${1:-quick}"; seed="${2:-0}"; shift; shift
+props="${*:-C01 C02 C03 C04 C05 C06 C07 C08 C09 C10 C11 C12 C13 C14 C15 C16 C17 C18 C19 C20}"
+cd "$here"
+mkdir -p "$here/.scratch"
+for p in $props; do
   s=$(date +%s)
-  VERIF_SEED=$seed ./check $p $tier > /tmp/rv-runall-$p.log 2>&1; rc=$?
+  log="$here/.scratch/runall-$tier-$seed-$p.log"
+  VERIF_SEED=$seed ./check $p $tier > "$log" 2>&1; rc=$?
   e=$(date +%s)
-  echo "$p rc=$rc $((e-s))s $(grep -c '^KNOWN-FINDING' /tmp/rv-runall-$p.log) known; $(grep -E '^(VIOLATION|INCONCLUSIVE)' /tmp/rv-runall-$p.log | head -2 | cut -c1-200)"
+  echo "$p tier=$tier seed=$seed rc=$rc $((e-s))s $(grep -c '^KNOWN-FINDING' "$log") known; $(grep -E '^(VIOLATION|INCONCLUSIVE)' "$log" | head -2 | cut -c1-400)"
 done
